@@ -108,3 +108,13 @@ prop("C01",
      level_note="Trusted: Lean kernel for the validator theorem; the Lean compiler for running the validator on concrete programs; cBPF machine model; third-party generator untrusted (validated)",
      technique="Lean 4 proved translation validator (cell/representative argument) applied to every real filter + decide +kernel on regenerated glue + VM cross-check",
      timeout={"quick": 1500, "thorough": 7200})
+
+prop("C10",
+     trusted_base=["hand model Model/Rpc.lean of both protocol endpoints (host Execve/waitForDone/simple calls; container serve/handleExecve/handleExecveStarted) with FIFO channels; the capacity-1 Go channels are folded into the queues",
+                   "tie: message-kind logs recorded at BOTH endpoints by the verif hooks (container/trace_verif.go) must be a run of the model for every operation of random histories (trace inclusion computed by the driver), plus API result class and a Ping after every step"],
+     assumptions=["Go channel/goroutine scheduling beyond the modelled queues; gob framing is C19",
+                  "requests fit the transport: a request whose gob encoding exceeds 32 KiB or an Open batch with more than 253 successes (SCM_MAX_FD) loses the environment; recorded as open known findings under C10/C14 (hypothesis 'request fits')"],
+     not_covered="real-time promptness after transport loss is observed, not proved",
+     level_text="Kernel-evaluated exhaustive exploration of the protocol LTS for every operation kind x outcome class x sync mode under all interleavings of exit/cancel/kill/reply, lifted by induction to every finite history: after every call host and container are in sync with empty channels, every call gets exactly its own answer, a Ping afterwards always succeeds, transport loss never blocks the host; witness theorem for the pinned tree's desynchronisation; trace inclusion of real two-endpoint logs into the model",
+     level_note="Trusted: Lean kernel; the protocol model is hand written and tied to the code by trace inclusion on sampled histories (not a proof of refinement)",
+     technique="Lean 4 exhaustive LTS exploration (decide +kernel) + induction over histories + trace-inclusion correspondence")
